@@ -1,5 +1,6 @@
 import MCHap.Proofs.MH
 import MCHap.Proofs.Paths
+import MCHap.Proofs.IntervalRefine
 import MCHap.Model.AssembleMoves
 import MCHap.Properties.C04
 import MCHap.Proofs.Prior
@@ -160,6 +161,39 @@ theorem dosage_return_pos (G : Multiset (A × B)) (p) (hp : p ∈ dPaths G) :
 theorem recomb_return_pos (G : Multiset (A × B)) (p) (hp : p ∈ rPaths G) :
     0 < (rPaths (rTgt G p)).card :=
   Finset.card_pos.mpr ⟨_, recomb_hmem G p hp⟩
+
+/-! ### the literal option enumerators refine the abstract path sets
+
+`interval_step` works on integer label pairs (in-interval label, out-of-interval label) per
+haplotype and enumerates options by double loops over haplotype indices, skipping duplicates through
+`get_haplotype_dosage`.  The theorems below tie those loops (`dosagePairs`, `recombPairs`,
+`*_NOptions` of the model) to the path sets `dPaths` / `rPaths` on the multiset of label pairs for
+which `dosage_db` / `recomb_db` are proved: same number of options (hence the same proposal and
+return probabilities `1/n`), and every literal option is an abstract path with the same target. -/
+
+theorem dosageNOptions_eq_card (L : List (ℕ × ℕ)) :
+    dosageNOptions L = (dPaths (L : Multiset (ℕ × ℕ))).card := Refine.dosageNOptions_eq_card L
+
+theorem recombNOptions_double_eq_card (L : List (ℕ × ℕ)) :
+    2 * recombNOptions L = (rPaths (L : Multiset (ℕ × ℕ))).card := Refine.recombNOptions_double_eq_card L
+
+theorem dosagePairs_sound (L : List (ℕ × ℕ)) (h0 h1 : ℕ) (h : (h0, h1) ∈ dosagePairs L) :
+    ∃ (a0 : h0 < L.length) (a1 : h1 < L.length),
+      (L[h0], L[h1].1) ∈ dPaths (L : Multiset (ℕ × ℕ)) ∧
+      ((L.set h0 (L[h1].1, L[h0].2) : List (ℕ × ℕ)) : Multiset (ℕ × ℕ))
+        = dTgt (L : Multiset (ℕ × ℕ)) (L[h0], L[h1].1) := Refine.dosagePairs_sound L h0 h1 h
+
+theorem dosagePairs_injective (L : List (ℕ × ℕ)) (h0 h1 k0 k1 : ℕ)
+    (h : (h0, h1) ∈ dosagePairs L) (k : (k0, k1) ∈ dosagePairs L)
+    (e0 : L.getD h0 (0, 0) = L.getD k0 (0, 0))
+    (e1 : (L.getD h1 (0, 0)).1 = (L.getD k1 (0, 0)).1) : h0 = k0 ∧ h1 = k1 :=
+  Refine.dosagePairs_injective L h0 h1 k0 k1 h k e0 e1
+
+theorem recombPairs_sound (L : List (ℕ × ℕ)) (h0 h1 : ℕ) (h : (h0, h1) ∈ recombPairs L) :
+    ∃ (a0 : h0 < L.length) (a1 : h1 < L.length),
+      (L[h0], L[h1]) ∈ rPaths (L : Multiset (ℕ × ℕ)) ∧
+      (((L.set h0 (L[h1].1, L[h0].2)).set h1 (L[h0].1, L[h1].2) : List (ℕ × ℕ)) : Multiset (ℕ × ℕ))
+        = rTgt (L : Multiset (ℕ × ℕ)) (L[h0], L[h1]) := Refine.recombPairs_sound L h0 h1 h
 
 /-! ### temperature exchange -/
 
